@@ -97,7 +97,8 @@ class Compare(Contract):
         ctx.assume(x2.wf(ctx))
         ctx.assume(bok(x1.shape, x2.shape))
         shape = bshape(x1.shape, x2.shape)
-        ctx.assume((ndim(shape) == 0) if zero_d else (ndim(shape) >= 1))
+        if zero_d is not None:
+            ctx.assume((ndim(shape) == 0) if zero_d else (ndim(shape) >= 1))
         env = {"x1": x1, "x2": x2, "kwargs": {}}
         if with_out:
             of = z3.Function("out_in", Idx, B)
@@ -205,3 +206,226 @@ class Compare(Contract):
 
 
 CONTRACTS = [Compare(n) for n in OPS]
+
+
+# ====================================================================== maximum / minimum
+class Where(Contract):
+    """numpoly.where(condition, x, y) at the level of abstract polynomial values (PV):
+    element i of the result denotes x_i where the condition holds and y_i elsewhere."""
+    name = "numpoly.where"
+    relpath = "numpoly/array_function/where.py"
+    func = "where"
+    properties = ("C09",)
+
+    def cases(self):
+        return iter(())          # body verified in a later round; used here as an assumed contract
+
+    def apply(self, ex, args, kw, node):
+        cond, x, y = args
+        if not (isinstance(cond, Arr) and cond.kind == "bool" and isinstance(x, Poly) and isinstance(y, Poly)):
+            raise U("where with these operand kinds", node)
+        site = ex.site("where")
+        ex.oblige(f"pre({site}).same_shape", z3.And(cond.shape == x.shape, x.shape == y.shape), "precondition", node)
+        ctx = ex.ctx
+        r = Poly(ctx, ctx.fresh("where"), shape=x.shape)
+        ctx.assume(r.wf(ctx))
+        c = cond.elem
+        ctx.assume(ctx.forall_idx(lambda i: r.val(i) == z3.If(c(i), x.val(i), y.val(i)), r.shape))
+        r.where_of = (cond, x, y)
+        return r
+
+
+class Extremum(Compare):
+    """maximum / minimum: same loop as the comparisons with a fresh all-False accumulator,
+    then where(acc, x1, x2)."""
+    properties = ("C07",)
+
+    def __init__(self, fname, op):
+        self.func = fname
+        self.name = f"numpoly.{fname}"
+        self.relpath = self.relpath_fmt.format(fname)
+        self.op = op
+
+    def _loops(self):
+        loops = super()._loops()
+        spec = loops[1]
+        base_inv, base_havoc, base_enter = spec.inv, spec.havoc, spec.enter
+
+        def ren(env):
+            e = dict(env)
+            e["out"] = env["out_"]
+            return e
+        return {1: LoopSpec(lambda ex, env, k: base_inv(ex, ren(env), k),
+                            lambda ex, env, k: base_havoc(ex, ren(env), k),
+                            modifies=("out_", "idx", "indices"), ghost=spec.ghost,
+                            enter=lambda ex, env, seq: base_enter(ex, ren(env), seq))}
+
+    def cases(self):
+        def make_env(ex):
+            env = self._setup(ex, False, None)
+            env["out"] = None
+            return env
+
+        def check(out):
+            ex, ctx = out.ex, out.ctx
+            ex.oblige("raises.nothing", z3.BoolVal(out.kind == "return"), "post")
+            if out.kind != "return":
+                return
+            res = out.value
+            ok = isinstance(res, Poly) and hasattr(res, "where_of") and "last" in ex.ghost
+            ex.oblige("post.result_is_where_of_operands", z3.BoolVal(ok), "post")
+            if not ok:
+                return
+            cond, xa, xb = res.where_of
+            A, Bp, pi, last = ex.ghost["A"], ex.ghost["B"], ex.ghost["pi"], ex.ghost["last"]
+            K, graded, reverse = pi.sorted_keys
+            from engine.optmodel import okey
+            from contracts.option import get_state
+            st = get_state(ex)
+            bb = lambda v: z3.BoolVal(v) if isinstance(v, bool) else v
+            ex.oblige("post.order_uses_sort_options",
+                      z3.And(bb(graded) == ovbool(st.cur.val[okey("sort_graded")]),
+                             bb(reverse) == ovbool(st.cur.val[okey("sort_reverse")])), "post")
+            ex.oblige("post.sorted_rows_are_the_aligned_rows",
+                      z3.And(K.n == A.N, K.D == A.D, ctx.forall_range(0, A.N, lambda c: K.col(c) == A.row(c))), "post")
+            ex.oblige("post.selects_between_the_aligned_operands", z3.BoolVal(xa is A and xb is Bp), "post")
+            w = lambda i: z3.If(last(A.N, i) == -1, -1, pi.at(last(A.N, i)))
+            u, ii = z3.Int(ctx.fresh("u")), z3.Const(ctx.fresh("i"), Idx)
+            ctx.assume(z3.ForAll([u, ii], z3.Implies(z3.And(0 <= u, u < A.N), z3.And(
+                0 <= pi.inv(u), pi.inv(u) < A.N, pi.at(pi.inv(u)) == u)), patterns=[A.C(u, ii)]))
+            for cname, f in spec_witness(ctx, A, Bp, w, res.shape, graded, reverse):
+                ex.oblige(f"post.witness.{cname}", f, "post")
+            # element i is x1_i iff x1_i is strictly larger (smaller) at the largest differing monomial, else x2_i
+            ex.oblige("post.value", ctx.forall_idx(lambda i: res.val(i) == z3.If(
+                z3.And(w(i) != -1, self.op(A.C(w(i), i), Bp.C(w(i), i))), A.val(i), Bp.val(i)), res.shape), "post")
+        yield Case("", make_env, check, loops=self._loops())
+
+    def apply(self, ex, args, kw, node):
+        raise U(f"{self.func} as a callee", node)
+
+
+# ====================================================================== equal / not_equal
+class Equal(Contract):
+    name = "numpoly.equal"
+    relpath = "numpoly/array_function/equal.py"
+    func = "equal"
+    properties = ("C07",)
+    assumptions = Compare.assumptions
+
+    def _loops(self):
+        def inv(ex, env, k):
+            A, Bp, out0 = ex.ghost["A"], ex.ghost["B"], ex.ghost["out0"]
+            out = env["out"]
+            return [("acc", ex.ctx.forall_idx(lambda i: out.elem(i) == z3.And(
+                out0(i), ex.ctx.forall_range(0, k, lambda t: A.C(t, i) == Bp.C(t, i))), out.shape))]
+
+        def havoc(ex, env, k):
+            h = ex.ctx.func("out_h", Idx, B)
+            env["out"]._elem = lambda i: h(i)
+
+        def enter(ex, env, seq):
+            from engine.polymodel import _freeze
+            ex.ghost["out0"] = _freeze(env["out"])
+        return {1: LoopSpec(inv, havoc, modifies=("out", "coeff1", "coeff2"), enter=enter)}
+
+    def cases(self):
+        helper = Compare("greater")
+        for label, with_out, zero_d in (("nd", False, False), ("nd_out", True, False), ("0d", False, True)):
+            def make_env(ex, with_out=with_out, zero_d=zero_d):
+                env = helper._setup(ex, with_out, zero_d)
+                ex.hooks = {"after_align": helper._after_align}
+                env["where"] = True
+                return env
+
+            def check(out, with_out=with_out, zero_d=zero_d):
+                ex, ctx = out.ex, out.ctx
+                ex.oblige("raises.nothing", z3.BoolVal(out.kind == "return"), "post")
+                if out.kind != "return":
+                    return
+                res = out.value
+                if zero_d:
+                    ex.oblige("post.scalar_result", z3.BoolVal(isinstance(res, (bool, z3.BoolRef))), "post")
+                    ex.oblige("post.recursion_used_own_contract", z3.BoolVal(getattr(ex, "rec_ghost", None) is not None), "post")
+                    return
+                ok = isinstance(res, Arr) and res.kind == "bool" and "A" in ex.ghost
+                ex.oblige("post.boolean_array", z3.BoolVal(ok), "post")
+                if not ok:
+                    return
+                A, Bp = ex.ghost["A"], ex.ghost["B"]
+                ex.oblige("post.shape", res.shape == A.shape, "post")
+                base = ex.out_in if with_out else (lambda i: z3.BoolVal(True))
+                ex.oblige("post.value", ctx.forall_idx(lambda i: res.elem(i) == z3.And(
+                    base(i), ctx.forall_range(0, A.N, lambda t: A.C(t, i) == Bp.C(t, i))), res.shape), "post",
+                    note="== holds exactly where every coefficient of the aligned operands agrees")
+            yield Case(label, make_env, check, loops=self._loops())
+
+    def apply(self, ex, args, kw, node):
+        return Compare.apply(self, ex, args, kw, node)
+
+
+class NotEqual(Contract):
+    name = "numpoly.not_equal"
+    relpath = "numpoly/array_function/not_equal.py"
+    func = "not_equal"
+    properties = ("C07",)
+    assumptions = Compare.assumptions + ("operands have equal shapes (not_equal aligns exponents only; numpy broadcasts the columns)",)
+
+    def _loops(self):
+        def inv(ex, env, k):
+            A, Bp = ex.ghost["A"], ex.ghost["B"]
+            out = env["out"]
+            if not isinstance(out, Arr):
+                raise U("accumulator is not an array after the first iteration")
+            return [("acc", ex.ctx.forall_idx(lambda i: out.elem(i) == z3.Not(
+                ex.ctx.forall_range(0, k, lambda t: A.C(t, i) == Bp.C(t, i))), out.shape)),
+                    ("acc_shape", out.shape == A.shape)]
+
+        def havoc(ex, env, k):
+            h = ex.ctx.func("out_h", Idx, B)
+            env["out"]._elem = lambda i: h(i)
+        return {1: LoopSpec(inv, havoc, modifies=("out", "key", "tmp"), peel=1)}
+
+    def cases(self):
+        helper = Compare("greater")
+
+        def make_env(ex):
+            ctx = ex.ctx
+            for a in shape_axioms(ctx):
+                ctx.assume(a)
+            x1 = Poly(ctx, "x1", region=Region("caller", "x1"))
+            x2 = Poly(ctx, "x2", region=Region("caller", "x2"))
+            ctx.assume(x1.wf(ctx))
+            ctx.assume(x2.wf(ctx))
+            ctx.assume(x1.shape == x2.shape)
+            ex.ghost = {}
+
+            def after(ex_, res):
+                # align_exponents keeps each operand's own shape
+                if "A" not in ex_.ghost:
+                    ex_.ghost["A"], ex_.ghost["B"] = res
+            ex.hooks = {"after_align": after}
+            return {"x1": x1, "x2": x2, "out": None, "where": True, "kwargs": {}}
+
+        def check(out):
+            ex, ctx = out.ex, out.ctx
+            ex.oblige("raises.nothing", z3.BoolVal(out.kind == "return"), "post")
+            if out.kind != "return":
+                return
+            res = out.value
+            ok = isinstance(res, Arr) and res.kind == "bool" and "A" in ex.ghost
+            ex.oblige("post.boolean_array", z3.BoolVal(ok), "post")
+            if not ok:
+                return
+            A, Bp = ex.ghost["A"], ex.ghost["B"]
+            ex.oblige("post.shape", res.shape == A.shape, "post")
+            ex.oblige("post.value", ctx.forall_idx(lambda i: res.elem(i) == z3.Not(
+                ctx.forall_range(0, A.N, lambda t: A.C(t, i) == Bp.C(t, i))), res.shape), "post",
+                note="!= is the complement of ==")
+        yield Case("", make_env, check, loops=self._loops())
+
+    def apply(self, ex, args, kw, node):
+        raise U("not_equal as a callee", node)
+
+
+CONTRACTS = CONTRACTS + [Where(), Extremum("maximum", lambda a, b: a > b), Extremum("minimum", lambda a, b: a < b),
+                         Equal(), NotEqual()]
